@@ -49,13 +49,49 @@ pub struct Cfg {
 }
 
 pub fn parse_cfg(toml: &str) -> Cfg {
-    let get = |k: &str| -> Option<i64> {
-        toml.lines().find_map(|l| {
-            let l = l.trim();
-            l.strip_prefix(k).and_then(|r| r.trim().strip_prefix('=')).and_then(|v| v.trim().parse::<i64>().ok())
-        })
-    };
-    Cfg { depth: get("depth").or(Some(10)), size: get("size").or(Some(100)) }
+    // the top-level section `[random]` only; `[random.<name>]` sections are scoped to a type or label
+    let mut top = true;
+    let mut depth = None;
+    let mut size = None;
+    for l in toml.lines() {
+        let l = l.trim();
+        if l.starts_with('[') {
+            top = l == "[random]";
+            continue;
+        }
+        if !top {
+            continue;
+        }
+        let get = |k: &str| l.strip_prefix(k).and_then(|r| r.trim().strip_prefix('=')).and_then(|v| v.trim().parse::<i64>().ok());
+        if let Some(v) = get("depth") {
+            depth = Some(v);
+        }
+        if let Some(v) = get("size") {
+            size = Some(v);
+        }
+    }
+    Cfg { depth: depth.or(Some(10)), size: size.or(Some(100)) }
+}
+
+/// the depths configured for single types (`[random.<name>]`): each applies once along a path, where the type is entered
+/// from outside (a recursive re-entry keeps the running budget)
+pub fn scoped_depths(toml: &str) -> i64 {
+    let mut top = true;
+    let mut sum = 0i64;
+    for l in toml.lines() {
+        let l = l.trim();
+        if l.starts_with('[') {
+            top = l == "[random]";
+            continue;
+        }
+        if top {
+            continue;
+        }
+        if let Some(v) = l.strip_prefix("depth").and_then(|r| r.trim().strip_prefix('=')).and_then(|v| v.trim().parse::<i64>().ok()) {
+            sum += v.max(0);
+        }
+    }
+    sum
 }
 
 pub fn run_any(env: &TypeEnv, tys: &[Type], seed: &[u8], toml: &str) -> Result<Result<IDLArgs, String>, String> {
@@ -109,7 +145,7 @@ pub fn eval(out: &mut Out, op: &str, args: &[&str]) -> Option<String> {
                     // opt and vec stop, variants take a smallest alternative)
                     let cfg = parse_cfg(&toml);
                     let nodes: usize = env.0.values().map(nodes_of).sum::<usize>() + tys.iter().map(nodes_of).sum::<usize>();
-                    let bound = cfg.depth.unwrap_or(10).max(0) as usize + 1 + nodes;
+                    let bound = cfg.depth.unwrap_or(10).max(0) as usize + scoped_depths(&toml) as usize + 1 + nodes;
                     if let Some(d) = vals.args.iter().map(depth_of).max() {
                         if d > bound {
                             out.oracle_failure("a generated value nests deeper than the configured depth allows", &line);
@@ -231,7 +267,17 @@ pub fn run(ctx: &mut Ctx) {
             1 => vec![0xffu8; seed_len],
             _ => ctx.rng.bytes(seed_len),
         };
-        let toml = gen_cfg(ctx);
+        let mut toml = gen_cfg(ctx);
+        // a depth of its own for some of the named types (recursive ones included): it applies where the type is entered
+        // from outside, not at a recursive re-entry
+        if ctx.rng.chance(1, 3) {
+            for k in env.0.keys() {
+                if ctx.rng.chance(1, 2) && k.chars().all(|c| c.is_ascii_alphanumeric() || c == '_') {
+                    toml.push_str(&format!("[random.{k}]\ndepth = {}\n", ctx.rng.pick(&[0i64, 1, 2, 3, 5])));
+                    ctx.out.stat("scoped-depth");
+                }
+            }
+        }
         for t in &tys {
             ctx.emit(&format!("rnd.size\t{}\t{}", sexp::env(&env), sexp::ty(t)), true);
         }
